@@ -4,7 +4,7 @@
    (valid_res, mem_denotes, time_denotes, dominates, filled, mentions_all) = Model/ResourcesSpec.v. *)
 From Coq Require Import QArith.
 From Verif Require Import Base.Prelude Model.Resources Model.ResourcesSpec Proofs.ResourcesFacts.
-From Verif Require Import Corr.Run_C20 Proofs.ResourcesCorrFacts.
+From Verif Require Import Model.ResourcesSeq Corr.Run_C20 Proofs.ResourcesCorrFacts Proofs.ResourcesSeqFacts.
 Local Close Scope Q_scope.
 
 (* combine_max of valid operands never fails, returns a valid value that is at least as large as every operand in
@@ -140,6 +140,50 @@ Theorem C20_combine_max_drops_nodes :
             /\ exists res, fst (combine_max [r; r]) = Ok res /\ nodes res = None /\ cpus_per_node res = None.
 Proof. exact combine_max_drops_nodes. Qed.
 Print Assumptions C20_combine_max_drops_nodes.
+
+(* ---- operation sequences on SHARED objects (Model/ResourcesSeq.v) ----
+   Objects live in a heap; [step] computes every operation from the single-call model and writes the operand states
+   that update / combine_max / with_defaults return back into the heap.  No operation changes an object that already
+   exists (whatever the heap contains), so every operation is a function of its operands' field values and later
+   operations on an operand see it exactly as before. *)
+Theorem C20_operations_preserve_objects : forall h op out h', step h op = (out, h') ->
+  forall k o, nth_error h k = Some o -> nth_error h' k = Some o.
+Proof. exact step_preserves_objects. Qed.
+Print Assumptions C20_operations_preserve_objects.
+
+Theorem C20_sequence_preserves_objects : forall ops h k o,
+  nth_error h k = Some o -> nth_error (run_heap h ops) k = Some o.
+Proof. exact sequence_preserves_objects. Qed.
+Print Assumptions C20_sequence_preserves_objects.
+
+(* ... and everything an operation returns is again a valid Resources value with a proper extra_args dict; a
+   successful operation other than with_defaults(None) returns a NEW object (appended to the heap) *)
+Theorem C20_operations_return_values : forall h op out h',
+  Forall (fun r => valid_res r /\ nodup_keys (extra_args r) = true) h -> step h op = (out, h') ->
+  Forall (fun r => valid_res r /\ nodup_keys (extra_args r) = true) h'
+  /\ match out with
+     | ONew => exists y, h' = h ++ [y]
+     | OExisting id => h' = h /\ id < length h /\ must_be_new op = false
+     | _ => h' = h
+     end.
+Proof. exact step_returns_values. Qed.
+Print Assumptions C20_operations_return_values.
+
+Example C20_sequence_example :
+  let r := mkR (Some 2%Z) None None (Some (s "512MB")) None (Some (s "30:00")) None [] (s "external") in
+  let b := mkR (Some 8%Z) None None (Some (s "0.5TB")) (Some 1%Z) None None [] (s "external") in
+  Forall (fun r => valid_res r /\ nodup_keys (extra_args r) = true) [r; b]
+  /\ map fst [step [r; b] (OCombine [0; 1]); step [r; b] (OUpdate 0 [(s "cpus", UInt 3%Z)]);
+              step [r; b] (OWithDefaults 0 None)]
+     = [ONew; ONew; OExisting 0].
+Proof. split; [repeat constructor; apply sp_valid_iff; reflexivity|reflexivity]. Qed.
+
+(* the code before "fix: Resources.update no longer mutates ...": writing back the receiver state that the old
+   update returns changes the heap *)
+Theorem C20_operations_preserve_objects_prefix_refuted :
+  exists r kw, valid_res r /\ set_nth 0 (snd (fst (update_prefix r kw))) [r] <> [r].
+Proof. exact update_prefix_changes_heap. Qed.
+Print Assumptions C20_operations_preserve_objects_prefix_refuted.
 
 (* ---- the executable statement used by the correspondence check ----
    spec_ok (Corr/Run_C20.v) is what the engine evaluates on the observations of the real implementation.
